@@ -38,7 +38,21 @@ Inductive layer :=
 Inductive err :=
 | EBase                                   (* errors.New(...), ctx.Err() *)
 | EWrap (l : layer) (e : err)
-| EJoin (es : list err).
+| EJoin (es : list err)
+| ECustom (claims : list layer) (is_any : bool) (e : err).
+(* ECustom: an error type of somebody else's that wraps e and has its OWN `As(any) bool` method (and possibly
+   an `Is(error) bool` method answering is_any to every target).  claims = what its As method answers:
+   for a target of the type of layer l it returns true and sets the target to l's value (Go documentation of
+   errors.As: "An error matches target if the error's concrete value is assignable to the value pointed to by
+   target, or if the error has a method As(any) bool such that As(target) returns true").  EWrap l e is the
+   special case of the real wrapper types (assignable, one type).  errors.Is is never called on the retry
+   path, so an Is method has no influence (is_any is carried only to state exactly that). *)
+
+Fixpoint find_first {A} (f : layer -> option A) (ls : list layer) : option A :=
+  match ls with
+  | [] => None
+  | l :: r => match f l with Some a => Some a | None => find_first f r end
+  end.
 
 (* a linear chain of wrappers, outermost first, around the base error *)
 Fixpoint echain (ls : list layer) : err :=
@@ -56,6 +70,7 @@ Fixpoint find_layer {A} (f : layer -> option A) (e : err) : option A :=
        | [] => None
        | x :: r => match find_layer f x with Some a => Some a | None => go r end
        end) es
+  | ECustom ls _ e' => match find_first f ls with Some a => Some a | None => find_layer f e' end
   end.
 
 Definition is_some {A} (o : option A) : bool := match o with Some _ => true | None => false end.
@@ -72,12 +87,13 @@ Definition throttle_of (e : err) : option Z :=
 Definition partial_of (s : signal) (e : err) : option (list Z) :=
   find_layer (fun l => match l with LPartial s' rem => if signal_eqb s s' then Some rem else None | _ => None end) e.
 
-(* a layer satisfying p occurs somewhere in the tree *)
+(* a layer satisfying p occurs somewhere in the tree (as a real wrapper or as a claim of a custom As method) *)
 Fixpoint occurs (p : layer -> bool) (e : err) : bool :=
   match e with
   | EBase => false
   | EWrap l e' => p l || occurs p e'
   | EJoin es => existsb (occurs p) es
+  | ECustom ls _ e' => existsb p ls || occurs p e'
   end.
 
 (* logsRequest.OnError and twins: the request is REPLACED by the data carried by the first
@@ -120,7 +136,11 @@ Definition increment (c : config) (cur : Z) : Z :=
 (* NextBackOff: `if b.currentInterval == 0 { b.currentInterval = b.InitialInterval }` *)
 Definition reset_cur (c : config) (cur : Z) : Z := if cur =? 0 then c_init c else cur.
 
-Definition backoff_stop : Z := -1.      (* backoff.Stop *)
+Definition backoff_stop : Z := -1.      (* backoff.Stop; tied to the library's constant by Tie.tie_backoff_stop *)
+
+(* TimeoutConfig.Validate accepts exactly the non-negative timeouts (tied by Tie.tie_timeout_validate);
+   sc_timeout ranges over these, 0 = no timeout sender *)
+Definition timeout_ok (t : Z) : bool := 0 <=? t.
 
 (* ---- scenario: everything outside retrySender that a run depends on ----------------------------- *)
 Inductive wake := WCtx | WStop | WTimer.
